@@ -1,6 +1,6 @@
 (* C02 correspondence cases: store histories (Model/ContStore.v, case02) and byte-level appends
    (Model/LogBytes.v) in one case type, so one harness run writes one family of case files. *)
-From RipV Require Import Base.Prelude Model.Frames Model.Log Model.ContStore Model.LogBytes.
+From RipV Require Import Base.Prelude Model.Frames Model.Log Model.ContStore Model.LogBytes Model.NoopPlan.
 
 (* one EventLog::append of a frame whose line (frame + newline) has cb_len bytes, on a writer with an
    empty buffer: by how many bytes has the FILE grown at the hook point log.body_written (after the
@@ -62,17 +62,20 @@ Definition model_obs_c02b (c : case02b) : list N :=
 Inductive case02x :=
 | CStore (c : case02)
 | CStore2 (c : case02b)
-| CBytes (c : case_bytes).
+| CBytes (c : case_bytes)
+| CPlan (c : case_plan).      (* what one auto / auto-schedule call planned vs the planner of Model/NoopPlan.v *)
 
 Definition model_obs_c02x (c : case02x) : list N :=
   match c with
   | CStore s => model_obs_c02 s
   | CStore2 s => model_obs_c02b s
   | CBytes b => model_obs_bytes b
+  | CPlan c => model_obs_plan c
   end.
 Definition check_case_c02x (c : case02x) : bool :=
   match c with
   | CStore s => check_case_c02 s
   | CStore2 s => lN_eqb (model_obs_c02b s) (c2b_expect s)
   | CBytes b => lN_eqb (model_obs_bytes b) (cb_expect b)
+  | CPlan c => check_case_plan c
   end.
